@@ -70,8 +70,9 @@ def run(ck):
         cfg = vlib.cfg_with(sw, "BipImpl_sim.cfg", consts)
         r = vlib.tlc(sw, "BipImpl", cfg, workers=1, simulate=nsim // len(simsizes), depth=consts["MaxHist"] + 2,
                      seed=ck.seed * 1000 + k, timeout=1800)
-        if r.violated or (r.error and "timeout" in r.error):
+        if r.violated or (r.error and "timeout" not in r.error):
             raise vlib.Inconclusive("BipImpl simulation size %d: %s\n%s" % (size, r.violated or r.error, r.tail()))
+        # a simulation that ran out of time is a smaller sample, not a failed one (the histories printed so far are used)
         ck.add_tlc("BipImpl random simulation", r, consts, exhaustive=False)
         beh = os.path.join(ck.work, "sim_%d.jsonl" % size)
         n = vlib.edges_to_file(r, beh)
